@@ -555,8 +555,25 @@ func guardHang(prop string, c *Case, s *Stats, what string, f func() error) erro
 	return nil
 }
 
+// build calls NewSlimTrie. Equivalent spellings of one input are used in turn
+// (chosen by a deterministic function of the case, so that replays agree):
+// no Opt argument instead of Opt{} when every option field is nil, and
+// []interface{} instead of a typed slice for the values.
 func (c *Case) build() (*trie.SlimTrie, error) {
-	return trie.NewSlimTrie(c.spec().enc, c.keys(), c.typedValues(), c.Opt.opt())
+	vals := c.typedValues()
+	sel := len(c.Keys) + len(c.Enc)
+	if vals != nil && sel%5 == 2 {
+		rv := reflect.ValueOf(vals)
+		boxed := make([]interface{}, rv.Len())
+		for i := range boxed {
+			boxed[i] = rv.Index(i).Interface()
+		}
+		vals = boxed
+	}
+	if c.Opt == (OptSpec{}) && sel%2 == 0 {
+		return trie.NewSlimTrie(c.spec().enc, c.keys(), vals)
+	}
+	return trie.NewSlimTrie(c.spec().enc, c.keys(), vals, c.Opt.opt())
 }
 
 // loadTarget is the instance a stream is loaded into: a new empty trie, or
